@@ -219,6 +219,13 @@ RECIPES = [
     ("C06", "break", ["C06-R4"], "pyyeti/cb.py", "        psi = linalg.solve(-k[zz], k[zx])\n        k = k[xx] + k[xz] @ psi\n        m = m[xx]", "        psi = linalg.solve(-k[zz], k[zx])\n        k = k[xx] + k[xz] @ psi\n        m = m[zz]", "reduced mass partition"),
     ("C06", "break", ["C06-R4"], "pyyeti/cb.py", "        v2[z, :] = 0.0\n", "        v2[nz, :] = 0.0\n", "zero rows at the kept DOF"),
     ("C06", "neutral", [], "pyyeti/cb.py", "        psi = linalg.solve(-k[zz], k[zx])\n        k = k[xx] + k[xz] @ psi\n", "        psi = linalg.solve(k[zz], k[zx])\n        k = k[xx] - k[xz] @ psi\n        psi = -psi\n", "other sign convention, consistently"),
+    ("C19", "break", ["C19-R4"], "pyyeti/psd.py", "        if FL[0] < FLin[0]:\n            FL[0] = FLin[0]", "        if FL[0] < FLin[0]:\n            FL[0] = F[0]", "outer band clamped to the centre frequency"),
+    ("C19", "break", ["C19-R4"], "pyyeti/psd.py", "    ms = cau - cal", "    ms = cal - cau", "mean square sign"),
+    ("C19", "break", ["C19-R4"], "pyyeti/psd.py", "    Fa = np.hstack((FLin[0], FUin))", "    Fa = np.hstack((FLin[0], F[1:], FUin[-1]))", "cumulative curve tabulated at centre frequencies"),
+    ("C19", "break", ["C19-R4"], "pyyeti/psd.py", "        cau[:, i] = np.interp(FU, Fa, ca[:, i])", "        cau[:, i] = np.interp(FU, F, ca[1:, i])", "upper edges interpolated over another table"),
+    ("C19", "neutral", [], "pyyeti/psd.py", "    ms = cau - cal\n    psdoct = ms * (1 / (FU - FL).reshape(-1, 1))", "    band_ms = -cal + cau\n    widths = (FU - FL).reshape(-1, 1)\n    ms = band_ms\n    psdoct = (1 / widths) * ms", "temporaries, commuted"),
+    ("C05", "break", ["C05-R9"], "pyyeti/cyclecount.py", "    rf = rain.rainflow(peaks, getoffsets)\n", "    rf = rain.rainflow(np.asarray(peaks)[findap(np.asarray(peaks))], getoffsets)\n", "wrapper filters the reversals"),
+    ("C05", "break", ["C05-R9"], "pyyeti/cyclecount.py", "        rf, os = rain.rainflow(peaks, getoffsets)\n", "        rf, os = rain.rainflow(peaks, False)\n", "offsets not requested"),
     # ---- C20
     ("C20", "break", ["C20-R5"], "pyyeti/stats.py", "            if _func(a, 1 - c, r - 1, 1 - p) >= 0:\n                # `r` samples (the fewest possible) already meet the confidence\n                return a\n", "", "revert F16"),
     ("C20", "break", ["C20-R1"], "pyyeti/stats.py", "    return nct.ppf(c, n - 1, pnonc) / sn", "    return nct.ppf(c, n, pnonc) / sn", "degrees of freedom"),
